@@ -394,9 +394,55 @@ def c15(tier, seed):
                     break
         except Exception as e:      # noqa
             bad.append('lookup raised %s: %s' % (type(e).__name__, e))
+        # the lookup model (Model/Lookup.lean, object of the C15 theorems) answers the same queries
+        queries = []
+        def ans(fn, *a_, show=None):
+            try:
+                r = fn(*a_)
+                return show(r) if show else str(r)
+            except Exception as e:      # noqa
+                return 'err:' + ob.err_name(e)
+        try:
+            gl = h.get_list_extant_genes()
+            for g in ex.rng.sample(gl, min(4, len(gl))):
+                queries.append('(lookup gene %s)' % gen.q(g.unique_id))
+                o.put('lookup', 'gene:%s=%s' % (g.unique_id, ans(h.get_gene_by_id, g.unique_id, show=lambda x: x.unique_id + '@' + x.genome.name)))
+                queries.append('(lookup hogbygene %s)' % gen.q(g.unique_id))
+                o.put('lookup', 'hogbygene:%s=%s' % (g.unique_id, ans(h.get_hog_by_gene, g, show=nodekey)))
+            for v in ex.rng.sample(sorted(xm), min(3, len(xm))) + ['no-such-xref']:
+                queries.append('(lookup xref %s)' % gen.q(v))
+                o.put('lookup', 'xref:%s=%s' % (v, ans(h.get_genes_by_external_id, v, show=lambda r: ','.join(x.unique_id for x in r))))
+            for hid in list(h.get_dict_top_level_hogs())[:3] + ['no-such-hog']:
+                queries.append('(lookup hog %s)' % gen.q(hid))
+                o.put('lookup', 'hog:%s=%s' % (hid, ans(h.get_hog_by_id, hid, show=nodekey)))
+            for name in [sp for sp, _ in D.species][:3] + ['no-such-species']:
+                queries.append('(lookup extant %s)' % gen.q(name))
+                o.put('lookup', 'extant:%s=%s' % (name, ans(h.get_extant_genome_by_name, name, show=lambda x: taxS(pathof(x.taxon)))))
+            nonempty = [g for g in h.get_list_ancestral_genomes() if g.genes]
+            for g in nonempty[:3]:
+                queries.append('(lookup ancestral %s)' % gen.q(g.name))
+                o.put('lookup', 'ancestral:%s=%s' % (g.name, ans(h.get_ancestral_genome_by_name, g.name, show=lambda x: taxS(pathof(x.taxon)))))
+            for t in list(h.taxonomy.tree.traverse())[:4]:
+                queries.append('(lookup taxon %s)' % gen.q(t.name))
+                o.put('lookup', 'taxon:%s=%s' % (t.name, ans(h.get_taxon_by_name, t.name, show=lambda x: taxS(pathof(x)))))
+            queries.append('(lookup taxon "no-such-taxon")'); o.put('lookup', 'taxon:no-such-taxon=err:KeyError')
+            withg = [g for g in h.get_list_extant_genomes() + h.get_list_ancestral_genomes() if g.genes]
+            for _ in range(4):
+                if len(withg) < 2:
+                    break
+                sub_ = ex.rng.sample(withg, min(len(withg), ex.rng.randint(2, 4)))
+                txs = sorted(taxS(pathof(x.taxon)) for x in sub_)
+                want_p = gen.lcp([pathof(x.taxon) for x in sub_])
+                gsn = genomes_of(h)
+                if want_p in gsn and not gsn[want_p].genes:
+                    continue            # a lazily created empty genome: not modelled
+                queries.append('(mrcaset %s)' % ' '.join(tax_q(pathof(x.taxon)) for x in sub_))
+                o.put('lookup', 'mrcaset:%s=%s' % (','.join(txs), ans(h.get_ancestral_genome_by_mrca_of_genome_set, set(sub_), show=lambda x: taxS(pathof(x.taxon)))))
+        except Exception as e:      # noqa
+            bad.append('lookup correspondence raised %s: %s' % (type(e).__name__, e))
         if bad:
             ex.fail(cid, D, bad)
-        ex.submit(cid, D, o.tags, ['load', 'xref'], emit=['xref'])
+        ex.submit(cid, D, o.tags, ['load', 'xref', 'lookup'], emit=['xref'], queries=queries)
         # ambiguous trees must be rejected when the taxonomy is built
         for T2, own, what in dup_name_trees(ex.rng):
             ex.res.count('ambiguous_trees'); ex.res.count('ambiguous_' + what.replace(' ', '_'))
@@ -633,6 +679,37 @@ def c17(tier, seed):
                 bad.append('analysis %d changed after the call sequence (%s)' % (i, 'forest' if s2[0] != snaps[i][0] else 'genes' if s2[1] != snaps[i][1] else 'genome content' if s2[2] != snaps[i][2] else 'links'))
         if bad:
             ex.fail(cid, D, bad, extra=dict(ops=ops))
+        # correspondence with the session state machine of the model (Model/Session.lean, the object of theorem
+        # C17_history_independent): the call sequence of each analysis is replayed by `run (init H)` in the driver
+        for w in (0, 1):
+            sops = []; pyo = []
+            for op, out in zip(ops, outs):
+                if op[0] != w or out is None:
+                    continue
+                kind = op[1]
+                if kind == 'v':
+                    sops.append('(v %s %s)' % (tax_q(op[2]), tax_q(op[3])))
+                    pyo.append(out.rsplit(' nd=', 1)[0] if out.startswith('vmap ') else out)
+                elif kind == 'l':
+                    sops.append('(l %s %s)' % (tax_q(op[2]), tax_q(op[3]))); pyo.append(out)
+                elif kind == 'tp':
+                    sops.append('(tp)'); pyo.append('feats ' + out[7:] if out.startswith('tpfull ') else out)
+                elif kind == 'tph':
+                    sops.append('(tph %s)' % gen.q(op[2])); pyo.append('feats ' + out[6:] if out.startswith('tphog ') else out)
+                elif kind == 'clust' and gen.sub(D.T, op[2])[1]:
+                    sops.append('(clust %s)' % tax_q(op[2])); pyo.append(out)
+                elif kind == 'lookup':
+                    sops.append('(gene %s)' % gen.q(op[2]))
+                    pyo.append('gene ' + ' '.join(out.split(' ')[1:3]) if out.startswith('lookup ') else out)
+                elif kind == 'nav':
+                    sops.append('(genes %s)' % gen.q(op[2]))
+                    pyo.append('genes ' + out[4:].split('|')[0] if out.startswith('nav ') else out)
+            if sops:
+                so = ob.Obs(); so.put('load', 'ok')
+                for i, x in enumerate(pyo):
+                    so.put('session', '%d:%s' % (i, x))
+                ex.res.count('session_ops_replayed_by_model', len(sops))
+                ex.submit('%s-s%d' % (cid, w), D, so.tags, ['load', 'session'], queries=['(session %s)' % ' '.join(sops)], hist=False)
         # correspondence: every comparison / profile output equals the model's pure function value
         o = ob.Obs(); o.put('load', 'ok'); queries = []; seen = set()
         for op, out in zip(ops, outs):
